@@ -46,7 +46,10 @@ fn cors_body(shape: usize) {
     let mut cors = CORS::new(if any { "*" } else { "https://a.example" });
     if cred { cors = cors.AllowCredentials(); }
     if expose { cors = cors.ExposeHeaders(["X-A", "X-B"]); }
-    if maxage { cors = cors.MaxAge(600); }
+    // the configured max-age takes the boundary values of u32 across the shapes (0 is a meaningful value: `do not cache`)
+    const AGES: [(u32, &[u8]); 4] = [(600, b"600"), (0, b"0"), (1, b"1"), (u32::MAX, b"4294967295")];
+    let (age, age_text) = AGES[(shape / 128 + shape / 64) % 4];
+    if maxage { cors = cors.MaxAge(age); }
     if allowh { cors = cors.AllowHeaders(["X-C"]); }
     let proc_ = cors.chain(Inner { status: inner_status });
     let mut req = Request::init(std::net::IpAddr::V4(std::net::Ipv4Addr::new(127, 0, 0, 1)));
@@ -62,7 +65,7 @@ fn cors_body(shape: usize) {
     assert!(is(h.AccessControlAllowCredentials(), if cred && !any { Some(b"true") } else { None }), "CORS: Access-Control-Allow-Credentials: true iff credentials were enabled on a non-wildcard origin");
     assert!(is(h.AccessControlExposeHeaders(), if expose { Some(b"X-A, X-B") } else { None }), "CORS: the configured exposed headers, on every response");
     if options {
-        assert!(is(h.AccessControlMaxAge(), if maxage { Some(b"600") } else { None }), "CORS preflight: the configured max-age");
+        assert!(is(h.AccessControlMaxAge(), if maxage { Some(age_text) } else { None }), "CORS preflight: the configured max-age (0 included)");
         let want_allow: Option<&[u8]> = if allowh { Some(b"X-C") } else if acrh { Some(&echoed_copy[..]) } else { None };
         assert!(is(h.AccessControlAllowHeaders(), want_allow), "CORS preflight: the configured request headers, else the echoed Access-Control-Request-Headers");
         if inner_status == 1 {
